@@ -188,7 +188,7 @@ CHECKS = {
         "bounds": "two allocations with an ARBITRARY 8-character identifier stream against an index and a data directory holding other units (at most 3 "
                   "collisions in a row); two concurrent allocations drawing the same identifier, 2 pre-emptions; release (forced or not, removal "
                   "failing or not); restart on a command-unit record in each of the 5 states with arbitrary output size, then release",
-        "no_native": ["Verif_C13_unique_id", "Verif_C13_cancel_stops_the_process", "Verif_C13_cancel_after_an_early_cancel"],
+        "no_native": ["Verif_C13_unique_id", "Verif_C13_cancel_stops_the_process", "Verif_C13_cancel_after_an_early_cancel", "Verif_C13_finished_remote_unit_survives_its_ttl"],
         "schedule_harnesses": ["Verif_C13_concurrent_allocation"],
         "assumptions": ["processes are not modelled: exec.Cmd.Start fails, no runner process writes concurrently"],
         "outside": ["status regressions caused by the detached runner process racing with the daemon", "kubernetes / python units",
@@ -207,7 +207,8 @@ CHECKS = {
         "no_native": ["Verif_C15_gate", "Verif_C15_gate_sequence", "Verif_C15_remote_signed_unit"],
         "assumptions": ["golang-jwt ParseWithClaims and certificates.LoadPublicKey replaced by verdict models (the JWT library's signature, expiry and "
                         "algorithm checks are trusted)"],
-        "outside": ["the JWT library itself (signature verification, expiry evaluation, algorithm confusion)", "key file parsing",
+        "outside": ["the JWT library itself (signature verification, expiry evaluation, algorithm confusion) and the CLASS of error it reports (seeded change "
+                    "C15f, which waves through tokens whose parse error 'is' an expiry error, is NOT detected: the verdict model returns plain errors)", "key file parsing",
                     "the claims minted by createSignature (RS512, audience, expiry)"],
         "level_text": "Bounded symbolic execution of the real InitFromJSON/ControlFunc/processSignature/ShouldVerifySignature/VerifySignature: a "
                       "command for a verifying type that arrives over anything but the Unix socket takes effect only if the token parses, is valid "
@@ -313,7 +314,7 @@ CHECKS = {
         "bounds": "a datagram socket (advertising or not) closed 1-3 times, then a late packet, then re-binding the name, then node shutdown; two "
                   "deliveries + close (+ optional reader) on one socket under every schedule with 2 pre-emptions; one stream dial over a stubbed QUIC "
                   "transport failing at the handshake / at stream opening / succeeding and then closed in 4 different orders",
-        "no_native": ["Verif_C17_dial_releases_socket", "Verif_C17_failed_dial_leaves_nothing_behind"],
+        "no_native": ["Verif_C17_dial_releases_socket", "Verif_C17_failed_dial_leaves_nothing_behind", "Verif_C17_listener_closed_with_unaccepted_connections"],
         "schedule_harnesses": ["Verif_C17_close_vs_deliveries"],
         "assumptions": ["quic-go replaced by stubs in the dial harness (connection context ends when CloseWithError is called or the harness ends it)"],
         "outside": ["goroutines inside quic-go", "growth over long histories (per-operation release is decided)", "shutdown of backends",
